@@ -9,7 +9,7 @@ from ..core import cforest, clist, copt, cpair, cnat, cstr
 ID = "C01"
 THEOREM_FILE = "Properties/C01.v"
 META = {
-    "text": "Proof (Coq, coq/Properties/C01.v, 24 theorems, closed under the global context; any rule matcher, rulebooks of "
+    "text": "Proof (Coq, coq/Properties/C01.v, 41 theorems, closed under the global context; any rule matcher, rulebooks of "
             "any nesting with %global rules, any ordering rulebook, trees of any depth, rows no rule knows anywhere): on the "
             "device of coq/Model/Device.v (one entry per (rule,key) slot per level), executing path by path the cmd_paths of "
             "the model of _diff_and_patch for (old,new) reaches expected(R,old,new) (C01_expected: default, undo_redo, "
@@ -29,7 +29,12 @@ META = {
             "(C01_rewrite_patch_builds_partial: for every diff whose levels are governed by one %rewrite rule each with distinct "
             "keys, make_pre / make_patch / logic rewrite compute a patch and, under rw_keys_ok_b, executing it in the freshly "
             "reset block builds exactly the non-REMOVED entries in the diff's order, children alike - equality of forests); "
-            "the block statement (diff half, header step) is stated only and evaluated on examples; a re-texted %rewrite key "
+            "THE WHOLE BLOCK is proved too (C01_rewrite_block, C01_rewrite_flat; Proofs/ConvergeRewriteBlock.v): for a block header present "
+            "in old and new whose bodies are governed by %rewrite rules at every depth, in the computable domain wf_rw_block (the key "
+            "determines the row on every level, the ordering rulebook gives the direct commands of one level one sort key), the model "
+            "of _diff_and_patch computes a patch and executing its command paths on old yields new - equality of forests, any depth "
+            "and width; the body diff is cleared only if the bodies are equal (C01_rewrite_diff_cleared_only_if_equal) and built of "
+            "it is new's body (C01_rewrite_diff_builds); a re-texted %rewrite key "
             "is dropped (C01_rewrite_retext_refuted) and a block mixing %rewrite and ordinary child rules loses its %rewrite "
             "rows when entered for another row (C01_rewrite_mixed_refuted), both replayed on the real pipeline. Correspondence: "
             "chains are run through the real _diff_and_patch / cmd_paths, Coq re-executes Device.exec on the REAL command "
@@ -42,7 +47,11 @@ META = {
             "on (ordering rulebook, rule set) - no %order_reverse pattern matches a removal command of an undo_redo rule, at any "
             "depth - implies, for ALL old/new of the Tier-A domain and the second-extension matcher, that the patch computed WITH "
             "the %order_reverse rules converges (Proofs/ConvergeMainQ.v: the induction of ConvergeMain.v under an abstract "
-            "invariant); C01_shipped_order_ok evaluates the condition by vm_compute on every shipped pair.",
+            "invariant); C01_shipped_order_ok evaluates the condition by vm_compute on every shipped pair; the literal-word test lit_quiet "
+            "used for huawei's pairs is proved sound for the pattern model for every negation word that is a word (C01_lit_quiet_sound: "
+            "no blank, *, ~, braces; false without that guard: C01_lit_quiet_sound_statement_refuted, witness replayed on the real "
+            "_make_reverse / compile_row_regexp; every shipped negation word passes by computation), so the convergence conclusion holds "
+            "for ALL shipped pairs with no hypothesis (C01_shipped_converges_all).",
     "technique": "Coq induction on the size of the two config trees with a slot-by-slot analysis of one level (diff entries -> "
                  "make_pre grouping -> logic -> stable sort -> block stream -> path stack -> device); vm_compute evaluation "
                  "of Device.exec / expected / P_C01 on the real pipeline's outputs along chains",
@@ -50,11 +59,10 @@ META = {
             "Juniper/Nokia/RouterOS command forms), default diff logic, logics default/undo_redo/permanent/ignore_changes, no "
             "%force_commit, unambiguous removal commands, at most one row per (rule,key). Not proved (statements kept in "
             "Properties/C01.v): %ordered rows with bodies / mixed with other rules / below a block (only the flat one-rule "
-            "level is proved; the ordered reading P_C01o is evaluated on every real output), %rewrite blocks as a whole (C01_rewrite_block_statement; only the patch + device half is proved, P_C01 is not evaluated on real outputs for %rewrite rules - the model's diff / patch / cmd_paths are compared with the real ones), %multiline, second patch a no-op when a change was declined (checked on "
+            "level is proved; the ordered reading P_C01o is evaluated on every real output), %rewrite blocks outside wf_rw_block (bodies mixing %rewrite and ordinary rules, re-texted keys: refuted; a header that is added or removed rather than kept; P_C01 is not evaluated on real outputs for %rewrite rules - the model's diff / patch / cmd_paths are compared with the real ones), %multiline, second patch a no-op when a change was declined (checked on "
             "every real output). Shipped rulebooks: the convergence conclusion is proved for every shipped (ordering, patching) pair "
-            "except huawei's without any hypothesis (C01_shipped_converges); for huawei's pairs it rests on the unproved "
-            "hypothesis that the literal-word test lit_quiet is sound for the pattern model (C01_shipped_converges_partial; the "
-            "hypothesis is tested on the real regexps); the literal form 'no removal after a direct command of its slot' under "
+            "huawei's included, without any hypothesis (C01_shipped_converges, C01_shipped_converges_all: the literal-word test "
+            "lit_quiet is proved sound, C01_lit_quiet_sound; it is still tested on the real regexps as well); the literal form 'no removal after a direct command of its slot' under "
             "the structural condition is stated only (C01_shipped_undo_first_statement). On huawei / cisco / arista / aruba / pc "
             "rulebooks the Tier-A domain is EMPTY for configurations with a known row, because their catch-all rules "
             "`<negation> ~ %global` make every removal command a known row (C01_shipped_catchall_outside_domain): the shipped "
